@@ -155,7 +155,9 @@ def step (st : St) (toks : List String) : St × String :=
     let r := [h1, h2, h3]
     match lookupNat r "s", lookupNat r "fee", lookupInt r "t" with
     | some signer, some fee, some t =>
-      match (splitMsgs body).mapM (parseMsg signer) with
+      -- a message may carry `u=<account>`: its own signer in a transaction signed by several accounts (the first
+      -- signer `s` pays the fee; the decorator looks every message up under the message's own first signer)
+      match (splitMsgs body).mapM (fun toks => parseMsg (match lookupNat toks "u" with | some u => u | none => signer) toks) with
       | some msgs =>
         let (s', res) := runTx st.s ⟨signer, fee, t, msgs⟩
         ({ st with s := s' }, match res with | .ok => "ok" | .err e => "err:" ++ showErr e)
